@@ -242,3 +242,44 @@ func VH_C11_evict(l int, capacity int) {
 		vcover("several-accepted")
 	}
 }
+
+// C11(e): messages of different lengths. The cache is primed with a signature over a short
+// message m (by signing it, prime = 0, or by verifying an honest signature of replica 2 over it,
+// prime = 1); the same signature then comes back with m extended by one byte, with m cut by one
+// byte, and with m itself. mlen is the length of m (symbolic bytes, zero bytes included).
+func VH_C11_lengths(mlen int, prime int, capacity int, ed int) {
+	n := 4
+	w := VNewWorld(1, n, ed == 1, 0, vsymbolic())
+	var plain, inner crypto.Base
+	if w.Ed {
+		plain, inner = crypto.NewEDDSA(w.Cfg), crypto.NewEDDSA(w.Cfg)
+	} else {
+		plain, inner = crypto.NewECDSA(w.Cfg), crypto.NewECDSA(w.Cfg)
+	}
+	cached := &Cache{impl: inner, capacity: capacity, entries: make(map[string]*list.Element, capacity)}
+	m := make([]byte, mlen)
+	for i := range m {
+		m[i] = nondetU8("m")
+	}
+	var sig hotstuff.QuorumSignature
+	if prime == 0 {
+		s, err := cached.Sign(m)
+		vassert(err == nil, "sign-succeeds")
+		if err != nil {
+			return
+		}
+		sig = s
+	} else {
+		sig = w.Multi([]VEntry{{Claimed: 2, Owner: 1, Msg: 0}}, [][]byte{m})
+		e1, e2 := plain.Verify(sig, m), cached.Verify(sig, m)
+		vassert(e1 == nil && e2 == nil, "honest-signature-verifies")
+	}
+	longer := append(append([]byte{}, m...), nondetU8("tail"))
+	for _, msg := range [][]byte{longer, m[:mlen-1], m} {
+		e1 := plain.Verify(sig, msg)
+		e2 := cached.Verify(sig, msg)
+		vassert((e1 == nil) == (e2 == nil), "cache-verdict-equals-uncached-for-a-message-of-another-length")
+	}
+	vcover("lengths")
+	vobserve("len", uint64(mlen))
+}
